@@ -88,6 +88,14 @@ PROPS = {
                      "search_config_locations (XDG/HOME env vars) and load_configuration_for_stdin's stdin-filepath branch: assumed / not under contract",
                      "toml deserialisation of the file contents (serde derive)"],
         assumptions=["Path::parent/join/exists, fs, env behave like the ghost file system (wrappers, class B); paths are finite (depth decreases towards the root)"]),
+    "C20": dict(units=["econf", "config"], kani=["opt_enums"], bounded=[dict(kind="cli", scenario="option_carriers")],
+        explanation="(1) Kani, complete loop-free enumeration in the real binary crate: every variant of every clap-facing Arg* enum converts to the same-named library variant and back. "
+                    "(2) Verus on the real text of load_overrides: a flag overrides exactly its field. (3) Verus on the real text of editorconfig::load against the documented key table: "
+                    "each key sets exactly its field (Cr|Lf -> Unix, CrLf -> Windows, indent_size = tab -> tab_width, max_line_length = off -> usize::MAX, quote_type = auto -> unchanged, ...) and nothing else changes.",
+        not_decided=["TOML decoding and `deny_unknown_fields` live in serde derive output; clap parsing likewise: a removed attribute is invisible to every contract (the bounded CLI scenario option_carriers exercises unknown keys / invalid values)",
+                     "byte-identical output across carriers is implied only through `same Config`; equality of the library's output for equal Configs is determinism of format_code, not proved"],
+        assumptions=["ec4rs Properties::get::<T>() returns the parsed value of key T (wrappers); the string parsers generated by property_choice! are macro output (assumed)"],
+        technique="Kani complete enumeration of finite enum domains + Verus contracts on mechanically extracted real functions"),
     "C02": dict(units=["expr", "block", "lib", "tok"],
         explanation="expression spine: same obligations as C05 (operator tree, leaves, operators)",
         not_decided=["statement/block/args/token layers are decided in their own units (see runs)"],
@@ -141,7 +149,7 @@ LIB_WITNESSES = [
 ]
 def cli(s): return dict(kind="cli", scenario=s)
 WITNESSES = {
-    "C15.": [cli("config_search")],
+    "C15.": [cli("config_search")], "C20.": [cli("option_carriers")],
     "C14.": [cli("write_only_formatted_text"), cli("check_never_writes")], "C13.": [cli("check_never_writes")], "C17.": [cli("stdin_stdout_only")],
     "C18.": [cli("json_diff_reconstructs"), cli("unified_diff_reconstructs"), cli("check_never_writes")],
     "C01.output_is_printed_ast": LIB_WITNESSES, "C01.verified": LIB_WITNESSES, "C12.sort_iff_enabled": LIB_WITNESSES, "C02.whole_ast": LIB_WITNESSES,
@@ -156,5 +164,9 @@ NOT_APPLICABLE = {
     "C19": "a schedule property of std atomics and a thread pool; Kani has no threads and Verus needs its own permission-carrying atomics which the real code does not use (DESIGN.md §9)",
     "C07": "not claimed yet: aggregate of the per-function panic/termination obligations is under construction",
     "C12": "not claimed yet: unit sort under construction",
-    "C20": "not claimed yet: Kani harnesses for the option conversions under construction",
 }
+
+# witnesses for unlabelled failures inside a function (failed proof step / precondition): by function name
+FN_WITNESSES = {"load": [cli("option_carriers")], "load_overrides": [cli("config_search"), cli("option_carriers")], "format_file": [cli("write_only_formatted_text"), cli("check_never_writes")],
+                "format_string": [cli("stdin_stdout_only")], "create_diff": [cli("check_never_writes")], "output_diff_json": [cli("json_diff_reconstructs")],
+                "load_configuration": [cli("config_search")], "find_config_file": [cli("config_search")]}
